@@ -57,10 +57,23 @@ struct Cb {
 #ifndef THREADING
 #define THREADING VMutexOnlyThreading
 #endif
+#ifndef ORDERED
+#define ORDERED 0      // 0: plain FIFO list; 1: OrderedQueueList ascending on the (symbolic) first argument; 2: descending; 3: default comparator (by event)
+#endif
+#if ORDERED == 1
+struct CmpArg { template <typename T> bool operator()(const T & x, const T & y) const { return std::get<0>(x.arguments) < std::get<0>(y.arguments); } };
+#define KEYLESS(x, y) ((x).a < (y).a)
+#elif ORDERED == 2
+struct CmpArg { template <typename T> bool operator()(const T & x, const T & y) const { return std::get<0>(x.arguments) > std::get<0>(y.arguments); } };
+#define KEYLESS(x, y) ((x).a > (y).a)
+#elif ORDERED == 3
+using CmpArg = eventpp::OrderedQueueListCompare;
+#define KEYLESS(x, y) ((x).key < (y).key)
+#endif
 struct Pol {
 	using Threading = THREADING; using Callback = Cb;
-#ifdef QUEUELIST_ORDERED
-	template <typename Item> using QueueList = eventpp::OrderedQueueList<Item>;
+#if ORDERED
+	template <typename Item> using QueueList = eventpp::OrderedQueueList<Item, CmpArg>;
 #endif
 };
 #if PAYLOAD == 0
@@ -96,7 +109,12 @@ struct Model {
 	Ev p[MAXP * 2]; int np;
 	uint32_t lis[2][MAXL]; int nl[2];            // listener ids per key, in order
 	Batch stack[RA + 2]; int depth;
+#if ORDERED
+	// stable insertion: after every pending event that does not compare greater
+	void push(const Ev & e) { int i = 0; while(i < np && ! KEYLESS(e, p[i])) i++; for(int k = np; k > i; k--) p[k] = p[k - 1]; p[i] = e; np++; }
+#else
 	void push(const Ev & e) { p[np++] = e; }
+#endif
 	Ev pop_front() { Ev e = p[0]; for(int i = 1; i < np; i++) p[i - 1] = p[i]; np--; return e; }
 };
 struct G {
@@ -104,7 +122,7 @@ struct G {
 };
 static G * g;
 
-enum { COV_PROCESS2 = 0, COV_IF_DECLINE, COV_IF_MIXED, COV_UNTIL_STOP, COV_REENTRANT_ENQ, COV_REENTRANT_TAKE, COV_TAKE, COV_PEEK, COV_CLEAR, COV_RECYCLE, COV_LISTENER_CHANGE, COV_N };
+enum { COV_PROCESS2 = 0, COV_IF_DECLINE, COV_IF_MIXED, COV_UNTIL_STOP, COV_REENTRANT_ENQ, COV_REENTRANT_TAKE, COV_TAKE, COV_PEEK, COV_CLEAR, COV_RECYCLE, COV_LISTENER_CHANGE, COV_REORDERED, COV_TIE, COV_N };
 
 static void reentrant_action();
 
@@ -188,9 +206,16 @@ static void end_batch(bool result)
 		if(t.kind == K_UNTIL) vf_assert(t.stopped || t.pi == t.n, 84);
 		vf_assert(result == any, 85);
 		// declined / not reached events stay queued in their original order ahead of newer ones
+#if ORDERED
+		// put-back events are merged with the newer ones in comparator order, older first among equals
+		{ Ev newer[MAXP * 2]; int nn = m.np; for(int i = 0; i < nn; i++) newer[i] = m.p[i];
+		  m.np = 0; for(int i = 0; i < kept; i++) m.p[m.np++] = keep[i];
+		  for(int i = 0; i < nn; i++) m.push(newer[i]); }
+#else
 		for(int i = m.np - 1; i >= 0; i--) m.p[i + kept] = m.p[i];
 		for(int i = 0; i < kept; i++) m.p[i] = keep[i];
 		m.np += kept;
+#endif
 	}
 	m.depth--;
 }
@@ -200,6 +225,9 @@ static void do_enqueue(int key)
 	uint32_t a = vf_nondet_u32(); uint32_t b = g->seq++;
 	ENQ(key, a, b);
 	Ev e; e.key = key; e.a = a; e.b = b; g->m.push(e);
+#if ORDERED
+	{ Model & m = g->m; for(int i = 0; i + 1 < m.np; i++) { if(m.p[i].b > m.p[i + 1].b) vf_cover(COV_REORDERED); if(! KEYLESS(m.p[i], m.p[i + 1]) && ! KEYLESS(m.p[i + 1], m.p[i])) vf_cover(COV_TIE); } }
+#endif
 }
 
 static void do_take()
